@@ -16,8 +16,11 @@ MUTANTS = [
     {'name': 'chandrupatla-scalar-formula-edited', 'rule': 'D4.scalar', 'file': O, 'old': "                eq2 = (c - a) / (b - a) * fa / (fc - fa) * fb / (fc - fb)", 'new': "                eq2 = (c - a) / (b - a) * fa / (fc - fa) * fb / (fb - fc)"},
     {'name': 'chandrupatla-vector-formula-edited', 'rule': 'D4.scalar', 'file': O, 'old': "            t[iqi] = fa2 / (fb2 - fa2) * fc2 / (fb2 - fc2) + (c2 - a2) / (b2 - a2) * fa2 / (", 'new': "            t[iqi] = fa2 / (fb2 - fa2) * fc2 / (fb2 - fc2) + (c2 - b2) / (b2 - a2) * fa2 / ("},
     {'name': 'chandrupatla-terminate-on-any', 'rule': 'D3.lanes', 'file': O, 'old': "        iterations += 1 - terminate\n", 'new': "        iterations += 1 - terminate\n        tlim = tlim * (1 + 0 * np.any(terminate))\n"},
+    {'name': 'bisect-copies-keep-caller-dtype', 'rule': 'D6.float', 'file': O, 'old': "    xmin, xmax = np.array(xmin, dtype=float), np.array(xmax, dtype=float)", 'new': "    xmin, xmax = np.array(xmin), np.array(xmax)"},
+    {'name': 'bisect-int-buffers', 'rule': 'D6.float', 'file': O, 'old': "    xmin, xmax = np.array(xmin, dtype=float), np.array(xmax, dtype=float)", 'new': "    xmin, xmax = np.array(xmin, dtype=int), np.array(xmax, dtype=float)"},
 ]
 REWRITES = [
+    {'name': 'bisect-float-by-astype', 'file': O, 'old': "    xmin, xmax = np.array(xmin, dtype=float), np.array(xmax, dtype=float)", 'new': "    xmin = np.array(xmin).astype(np.float64)\n    xmax = np.array(xmax, dtype='float64')"},
     {'name': 'bisect-where-form', 'file': O, 'old': "        xmin[fguess <= 0] = guess[fguess <= 0]\n        xmax[fguess >= 0] = guess[fguess >= 0]", 'new': "        xmin = np.where(fguess <= 0, guess, xmin)\n        xmax = np.where(fguess >= 0, guess, xmax)"},
     {'name': 'bisect-mask-temp', 'file': O, 'old': "        xmin[fguess <= 0] = guess[fguess <= 0]\n", 'new': "        below = fguess <= 0\n        xmin[below] = guess[below]\n"},
     {'name': 'bisect-half-times', 'file': O, 'old': "        guess = (xmin + xmax) / 2.0\n", 'new': "        guess = 0.5 * (xmin + xmax)\n"},
